@@ -164,9 +164,14 @@ def payload_docs():
     yield [['enum', 'E', ['A', 'A']]]
     for data in ('int', 'std::string', 'std::map<int, std::string>', ' x ', '', 'a\nb', '$T$'):
         yield [['extern', 'T', data]]
-    for name in ('x.dzn', '', 'dir/x y.dzn', '../x'):
+    for name in ('x.dzn', '', 'dir/x y.dzn', '../x',
+                 # characters outside Latin-1, decomposed / compatibility forms that a Unicode normalisation would rewrite,
+                 # an astral character, a very long name
+                 'e\u0301.dzn', '\u212b.dzn', '\ufb01le.dzn', '\ud55c\uae00.dzn', '\U0001f600.dzn', '\u0130\u0131.dzn',
+                 'A\u030a.dzn', 'x' * 300 + '.dzn'):
         yield [['import', name]]
         yield [['filename', name]]
+        yield [['extern', 'T', name]]
 
 
 def work(job):
